@@ -139,7 +139,7 @@ def run(ctx):
     bad = None
     for w in range(0x10000):
         try:
-            lab = formula.eval_decision(tree, {"args": {"instr": w, 1: w}})
+            lab = formula.eval_decision(tree, {"args": {"instr": w, 1: w}, "prog": prog})
         except (formula.Unknown, formula.Overflow) as e:
             bad = (w, "unknown: %s" % e, spec_class(w))
             break
